@@ -233,12 +233,16 @@ UNITS = {
     },
     'C12': {
         'functions': ['penman.transform:_reified_markers', 'penman.transform:_edge_markers',
-                      'penman.transform:_attr_markers', 'penman.model:Model.reify', 'penman.model:Model.dereify'],
-        'lemmas': [],
+                      'penman.transform:_attr_markers', 'penman.model:Model.reify', 'penman.model:Model.dereify',
+                      'penman.transform:indicate_branches@functional'],
+        'lemmas': ['without_role_snoc'],
         'level': 'other',
         'explanation': 'Proved: the marker-splitting helpers and the model-level reify/dereify used by every '
-                       'transformation.  Well-formedness, same top and faithful serialisation of the transformed graphs '
-                       'are decided by the bounded stand-in.',
+                       'transformation; indicate_branches adds nothing but top-role triples (removing them gives back '
+                       'the original triples in order), keeps the top and leaves its argument untouched, for every graph '
+                       'without top-role triples and every model (AssertionError outside: recorded finding N14).  '
+                       'Well-formedness, same top and faithful serialisation of the other transformed graphs and of '
+                       'compositions are decided by the bounded stand-in.',
     },
     'C15': {
         'functions': [
